@@ -71,6 +71,11 @@ CHECKS.update({
                 text='Approximators traced from source: u(x,0)=u0, second order also HasDerivAt in t = u0dot for every smooth network. Samplers as state machines over recorded torch.rand draws: every draw, however late, has point i in stratum i (1-D, temporal, segment, rectangle product), both bound orientations. Mini-batch loops: batches flatten to the permutation for all n, bs >= 1 (each point exactly once); one history entry per epoch per series. Correspondence: draws 1..5000 with generator frames compared, real _train_* with spy losses, real _solve_*.',
                 note='Known finding: 1-point training sets (torch.squeeze to 0-d) raise in the legacy API.'),
 })
+CHECKS.update({
+    'C17': dict(engine='calc', technique=T + '; explicit rounding bounds for the scipy Legendre coefficients (hand lemma abs_polyEval_le)', design='§7 C17',
+                text='All 25 hard-coded harmonics traced from source: eigenfunctions of the angular Laplacian with eigenvalue -l(l+1), azimuthal order m (d²/dφ² = -m²) and sine/cosine type at φ=0 — pinning each column to its documented (l,m) up to scale; RealSphericalHarmonics column order; RealFourierSeries terms; HarmonicsLaplacian = operators.spherical_laplacian of the expansion and FourierLaplacian = polar Laplacian for arbitrary coefficient symbols R_k(r) (max_degree 0..2 quick, 0..4 / Fourier 12 thorough); Legendre polynomials within 1e-10 of the exact P_l on [-1,1]; zonal columns = c_l P_l(cos θ) with c_l² within 1e-15 of (2l+1)/(4π); zonal Laplacian = spherical Laplacian minus an explicit residual bounded by 1e-8.',
+                note='Partial: orthogonality and the common normalisation (Gram matrix = π·I) are not proved; they are evaluated by band-limit-exact quadrature only in the failing-input search.'),
+})
 NOT_YET = {}
 
 def main():
